@@ -10,8 +10,8 @@
 //   schedule (from KeepVolume.tla, Gen configurations)
 //     n, ro, ser, life, trash        configuration
 //     pre[v], pretr[v]               initial copy / trashed copy per volume
-//     wk, tk, xk                     the concurrent requests: w in {put,touch}, t in {delete,
-//                                    list_eq, list_stale}, x in {untrash, empty}
+//     wk, tk, xk                     the concurrent requests: w in {put,touch,pull,pull_any}, t in {delete,
+//                                    list_eq, list_stale}, x in {untrash, empty, index}
 //     rv                             the volume whose timestamp a trash-list item names
 //     steps [{a,l,v}..]              the TLC behaviour: whose turn it is (a in w,t,x,tick), at which
 //                                    yield-point label l the actor stands, on which volume v
@@ -31,17 +31,21 @@
 package main
 
 import (
+	"bytes"
 	"encoding/json"
 	"fmt"
+	"io"
 	"io/ioutil"
 	"math/rand"
 	"os"
+	"path/filepath"
 	"runtime/debug"
 	"strings"
 	"testing"
 	"time"
 
 	"git.arvados.org/arvados.git/sdk/go/ctxlog"
+	"git.arvados.org/arvados.git/sdk/go/keepclient"
 )
 
 type vC04Step struct {
@@ -127,6 +131,38 @@ func (r *vC04Run) perform(op string, mount int, reqNs int64) int {
 			mnt.EmptyTrash()
 		}
 		return 200
+	case "pull":
+		// one pull-list item through the router; the pull worker fetches the block with GetContent
+		// (a package variable: here it hands out the block without a network) and stores it
+		pr := PullRequest{Locator: vC04Hash, Servers: []string{"localhost:9"}}
+		if mount > 0 {
+			pr.MountUUID = s.uuids[mount-1]
+		}
+		body, _ := json.Marshal([]PullRequest{pr})
+		code := s.do("PUT", "/pull", body, vksSysToken).Code
+		for {
+			st := s.h.pullq.Status()
+			if st.InProgress == 0 && st.Queued == 0 {
+				break
+			}
+			time.Sleep(200 * time.Microsecond)
+		}
+		return code
+	case "index":
+		resp := s.do("GET", "/index", nil, vksSysToken)
+		entries := []string{}
+		for _, line := range strings.Split(resp.Body.String(), "\n") {
+			if line == "" {
+				continue
+			}
+			cls := "other"
+			if f := strings.Fields(line); len(f) == 2 && f[0] == fmt.Sprintf("%s+%d", vC04Hash, len(vC04Block)) {
+				cls = "complete" // name H and the size of the block (= the size of the placed corrupt copy)
+			}
+			entries = append(entries, cls)
+		}
+		r.log(map[string]interface{}{"ev": "index", "entries": entries})
+		return resp.Code
 	}
 	return 0
 }
@@ -134,6 +170,10 @@ func (r *vC04Run) perform(op string, mount int, reqNs int64) int {
 func (r *vC04Run) populate(scn *vC04Scn) {
 	s := r.srv
 	for k := 0; k < scn.N; k++ {
+		if scn.XK == "index" {
+			// the model's IndexTo always finds the block directory of H
+			os.MkdirAll(filepath.Dir(s.blockPath(k, vC04Hash)), 0755)
+		}
 		switch scn.Pre[k] {
 		case "intact_old":
 			s.place(k, vC04Hash, vC04Block, -(vC04TTL + 1))
@@ -186,7 +226,7 @@ func (r *vC04Run) requestStamp(rv int, stale bool) (int64, string) {
 }
 
 var vC04Prefixes = map[string]string{"Compare": "w", "Touch": "w", "WriteBlock": "w", "Trash": "t", "Mtime": "t",
-	"Untrash": "x", "EmptyTrash": "x"}
+	"Untrash": "x", "EmptyTrash": "x", "IndexTo": "x"}
 
 // an actor that neither parks nor finishes within this time is taken to be blocked (flock / mutex held by
 // another actor); in the unchanged code the model never schedules a blocked actor, so this only
@@ -212,11 +252,19 @@ func (r *vC04Run) runSchedule(scn *vC04Scn, alphabet map[string]bool) {
 		started bool
 		retd    bool
 		status  chan int
+		mount   int
 	}
 	actors := map[string]*actor{}
 	order := []string{}
 	if scn.WK == "put" || scn.WK == "touch" {
 		actors["w"] = &actor{id: 1, op: scn.WK, status: make(chan int, 1)}
+		order = append(order, "w")
+	} else if scn.WK == "pull" || scn.WK == "pull_any" {
+		a := &actor{id: 1, op: "pull", status: make(chan int, 1)}
+		if scn.WK == "pull" {
+			a.mount = scn.RV
+		}
+		actors["w"] = a
 		order = append(order, "w")
 	}
 	if scn.TK != "" && scn.TK != "none" {
@@ -227,7 +275,7 @@ func (r *vC04Run) runSchedule(scn *vC04Scn, alphabet map[string]bool) {
 		actors["t"] = &actor{id: 2, op: op, status: make(chan int, 1)}
 		order = append(order, "t")
 	}
-	if scn.XK == "untrash" || scn.XK == "empty" {
+	if scn.XK == "untrash" || scn.XK == "empty" || scn.XK == "index" {
 		actors["x"] = &actor{id: 3, op: scn.XK, status: make(chan int, 1)}
 		order = append(order, "x")
 	}
@@ -260,9 +308,9 @@ func (r *vC04Run) runSchedule(scn *vC04Scn, alphabet map[string]bool) {
 			}
 			reqNs, tok = vns-int64(s.shift), fmt.Sprintf("%d", vns)
 		}
-		r.log(map[string]interface{}{"ev": "call", "id": a.id, "op": a.op, "mount": 0, "req": tok})
+		r.log(map[string]interface{}{"ev": "call", "id": a.id, "op": a.op, "mount": a.mount, "req": tok})
 		go func() {
-			st := r.perform(a.op, 0, reqNs)
+			st := r.perform(a.op, a.mount, reqNs)
 			a.status <- st
 			sched.actorDone(name)
 		}()
@@ -396,7 +444,7 @@ func (r *vC04Run) runSchedule(scn *vC04Scn, alphabet map[string]bool) {
 
 func (r *vC04Run) runRandom(scn *vC04Scn, rnd *rand.Rand) {
 	s := r.srv
-	ops := []string{"put", "touch", "get", "delete", "trashlist", "trashlist", "untrash", "empty", "tick", "tick"}
+	ops := []string{"put", "touch", "get", "delete", "trashlist", "trashlist", "untrash", "empty", "tick", "tick", "pull", "index"}
 	seq := []string{}
 	for i := 0; i < scn.Len; i++ {
 		op := ops[rnd.Intn(len(ops))]
@@ -419,6 +467,11 @@ func (r *vC04Run) runRandom(scn *vC04Scn, rnd *rand.Rand) {
 			}
 			reqNs, tok = r.requestStamp(rv, rnd.Intn(4) == 0)
 		}
+		if op == "pull" && rnd.Intn(2) == 0 {
+			if m := 1 + rnd.Intn(scn.N); !scn.RO[m-1] {
+				mount = m
+			}
+		}
 		r.log(map[string]interface{}{"ev": "call", "id": 1, "op": op, "mount": mount, "req": tok})
 		st := r.perform(op, mount, reqNs)
 		r.log(map[string]interface{}{"ev": "ret", "id": 1, "status": st})
@@ -431,6 +484,12 @@ func TestVerifC04(t *testing.T) {
 	// every handler request takes a 64 MiB buffer from a sync.Pool that each GC empties: collect rarely
 	defer debug.SetGCPercent(debug.SetGCPercent(1000))
 	ctxlog.SetLevel("panic")
+	defer func(orig func(string, *keepclient.KeepClient) (io.ReadCloser, int64, string, error)) {
+		GetContent = orig
+	}(GetContent)
+	GetContent = func(string, *keepclient.KeepClient) (io.ReadCloser, int64, string, error) {
+		return ioutil.NopCloser(bytes.NewReader(vC04Block)), int64(len(vC04Block)), "", nil
+	}
 	var scns []*vC04Scn
 	vReadNDJSON(os.Getenv("VERIF_SCENARIOS"), func() interface{} {
 		s := &vC04Scn{}
